@@ -102,6 +102,7 @@ def setup(ctx):
 
 
 def teardown(ctx):
+    rt_io.flush_stats(ctx)
     taps.report(ctx)
     taps.remove_all()
 
@@ -168,7 +169,7 @@ def make_dobs_list(ctx, rng, nobs, relation, data, nmax, master=None, cvs=None, 
                     continue
                 how = 'full' if relation == 'identical' else str(rng.choice(['full', 'prefix', 'suffix', 'stride', 'random']))
                 sub[c] = subset(rng, master[e][c], how)
-            prims.append(rt_io.primary(PE, rng, sub, str(rng.choice(kinds))))
+            prims.append(rt_io.primary(PE, rng, sub, str(rng.choice(kinds)), special=True if data == 'real' else 'frozen-only'))
         if data == 'int':
             # integer-valued samples: primary observables (sums over ensembles keep integer samples up to the constant shift)
             o = prims[0]
@@ -203,7 +204,7 @@ def make_dobs_list(ctx, rng, nobs, relation, data, nmax, master=None, cvs=None, 
                     ctx.count('spectator_gradient_entries')
                 lin = sum(k * c for k, c in zip(cc, comps))
                 o = o + lin if (data == 'int' or rng.random() < 0.5) else o * comps[0] + lin
-        if data == 'real' and rng.random() < 0.08:
+        if data == 'real' and rng.random() < 0.08 and all(float(np.max(np.abs(d))) > 1e-6 * abs(o.value) for d in o.deltas.values() if len(d)):
             o = o - o.value              # degenerate value: central value exactly 0.0, fluctuations not
             ctx.count('centered_observables')
         if data == 'real':
@@ -248,11 +249,11 @@ def make_pobs_list(ctx, rng, nobs, data, nmax, different=False, lay=None):
                 sub[c] = new
         elif different and k > 0:
             sub = {c: subset(rng, lay[e][c], str(rng.choice(['prefix', 'suffix', 'stride', 'random']))) for c in lay[e]}
-        o = rt_io.primary(PE, rng, sub, str(rng.choice(kinds)))
+        o = rt_io.primary(PE, rng, sub, str(rng.choice(kinds)), special='frozen-only')
         obs.append(o)
     if different and all(all(list(o.idl[c]) == list(obs[0].idl[c]) for c in o.names) for o in obs):
         c = sorted(lay[e])[0]
-        obs[-1] = rt_io.primary(PE, rng, dict(lay[e], **{c: lay[e][c][1:]}), kinds[0])
+        obs[-1] = rt_io.primary(PE, rng, dict(lay[e], **{c: lay[e][c][1:]}), kinds[0], special=False)
     if different and rng.random() < 0.5:
         obs = obs[::-1]
     return obs
@@ -804,9 +805,9 @@ def run_refuse(ctx, rng, idx, tmp):
     lay = rt_io.rand_layout(rng, 'replicas', 8, 16, allow_bare=False, ens_pool=['A', 'AB'])
     e = sorted(lay)[0]
     chains = lay[e]
-    a = rt_io.primary(PE, rng, chains, 'white')
+    a = rt_io.primary(PE, rng, chains, 'white', special=False)
     other_e = 'AB' if e == 'A' else 'A'                                  # prefix-sharing ensemble names
-    on_other = rt_io.primary(PE, rng, {c.replace(e + '|', other_e + '|'): v for c, v in chains.items()}, 'white')
+    on_other = rt_io.primary(PE, rng, {c.replace(e + '|', other_e + '|'): v for c, v in chains.items()}, 'white', special=False)
     one_rep = {c: chains[c] for c in sorted(chains)[:1]}
     ctx.cell('refuse', row)
     about_observables = row in ('pobs-several-ensembles', 'pobs-other-ensemble', 'pobs-more-replicas', 'pobs-fewer-replicas', 'dobs-inconsistent-covariance')
@@ -819,9 +820,9 @@ def run_refuse(ctx, rng, idx, tmp):
         elif row == 'pobs-other-ensemble':
             DIO.write_pobs([a, on_other][::int(rng.choice([1, -1]))], name, 'n')
         elif row == 'pobs-more-replicas':
-            DIO.write_pobs([rt_io.primary(PE, rng, one_rep, 'white'), a], name, 'n')
+            DIO.write_pobs([rt_io.primary(PE, rng, one_rep, 'white', special=False), a], name, 'n')
         elif row == 'pobs-fewer-replicas':
-            DIO.write_pobs([a, rt_io.primary(PE, rng, one_rep, 'white')], name, 'n')
+            DIO.write_pobs([a, rt_io.primary(PE, rng, one_rep, 'white', special=False)], name, 'n')
         elif row == 'pobs-enstag-not-str':
             DIO.write_pobs([a], name, 'n', enstag=[5, 2.5, ['E']][int(rng.integers(0, 3))])
         elif row == 'pobs-symbol-not-list':
